@@ -268,6 +268,13 @@ def run_scenario(ctx, desc):
         rng = random.Random(desc["aseed"])
         if desc["conv"] == "comodo":
             ds = conv.comodo_dataset(desc["spec"], rng)
+            if desc["aseed"] % 2:
+                # dimensions that belong to no axis (time, face, ensemble member): with and without a coordinate variable
+                import xarray as xr
+
+                ds = ds.assign_coords(time=("time", np.arange(3.0)))
+                ds["member_data"] = (("member", "time"), np.zeros((2, 3)))
+                ds = xr.Dataset(ds.data_vars, coords={k: ds.coords[k] for k in (["time"] + [c for c in ds.coords if c != "time"])[:: (1 if desc["aseed"] % 4 == 1 else -1)]})
         else:
             ds = conv.sgrid_dataset(desc["spec"], desc["sgrid_kind"], rng)
 
